@@ -1225,6 +1225,149 @@ static TypeInfo *parse_generic_type_args(Stage1Parser *p, const char *base_name)
     return type_info;
 }
 
+/* Postfix chain on *operand: field access (obj.field), tuple index (t.0) and union
+ * construction (Union.Variant { ... }).  Postfix forms bind tighter than unary and infix
+ * operators, so callers apply this to the operand they belong to.  Returns 1 on success,
+ * 0 after a reported syntax error (the caller returns what it has), -1 when the expression
+ * must be dropped (the caller returns NULL). */
+static int parse_postfix_chain(Stage1Parser *p, ASTNode **operand) {
+    while (match(p, TOKEN_DOT)) {
+        Token *dot_tok = current_token(p);
+        if (!dot_tok) {
+            parser_error(p, 0, 0, "Error: Stage1Parser reached invalid state (NULL token) in field access\n");
+            return 0;
+        }
+        int line = dot_tok->line;
+        int column = dot_tok->column;
+        advance(p);  /* consume '.' */
+
+        /* Check if this is a tuple index: tuple.0, tuple.1, etc. */
+        if (match(p, TOKEN_NUMBER)) {
+            Token *num_tok = current_token(p);
+            int index = (int)atoll(num_tok->value);
+            advance(p);  /* consume number */
+
+            /* Create tuple index node */
+            ASTNode *index_node = create_node(AST_TUPLE_INDEX, line, column);
+            index_node->as.tuple_index.tuple = (*operand);
+            index_node->as.tuple_index.index = index;
+            (*operand) = index_node;
+            continue;
+        }
+
+        if (!match(p, TOKEN_IDENTIFIER)) {
+            Token *err_tok = current_token(p);
+            if (err_tok) {
+                parser_error(p, err_tok->line, err_tok->column, "Error at line %d, column %d: Expected field name, variant name, or tuple index after '.'\n",
+                        err_tok->line, err_tok->column);
+            } else {
+                parser_error(p, 0, 0, "Error: Stage1Parser reached invalid state (NULL token) after '.'\n");
+            }
+            return 0;
+        }
+
+        Token *field_tok = current_token(p);
+        if (!field_tok || !field_tok->value) {
+            parser_error(p, field_tok ? field_tok->line : 0, field_tok ? field_tok->column : 0, "Error at line %d, column %d: Invalid field/variant token\n",
+                    field_tok ? field_tok->line : 0, field_tok ? field_tok->column : 0);
+            return 0;
+        }
+        char *field_or_variant = strdup(field_tok->value);
+        if (!field_or_variant) {
+            parser_error(p, 0, 0, "Error: Failed to allocate memory for field/variant name\n");
+            return 0;
+        }
+        advance(p);
+
+        /* Check if this is union construction: UnionName.Variant { ... } */
+        /* Union names should start with uppercase by convention, and we need both
+         * the union name and variant name to be identifiers (not field access) */
+        bool looks_like_union = ((*operand)->type == AST_IDENTIFIER &&
+                                 (*operand)->as.identifier &&
+                                 (*operand)->as.identifier[0] >= 'A' &&
+                                 (*operand)->as.identifier[0] <= 'Z' &&
+                                 field_or_variant &&
+                                 field_or_variant[0] >= 'A' &&
+                                 field_or_variant[0] <= 'Z');
+
+        if (match(p, TOKEN_LBRACE) && looks_like_union) {
+            /* This is union construction */
+            char *union_name = (*operand)->as.identifier;
+            char *variant_name = field_or_variant;
+
+            advance(p);  /* consume '{' */
+
+            /* Parse variant fields */
+            int capacity = 4;
+            int count = 0;
+            char **field_names = malloc(sizeof(char*) * capacity);
+            ASTNode **field_values = malloc(sizeof(ASTNode*) * capacity);
+
+            while (!match(p, TOKEN_RBRACE) && !match(p, TOKEN_EOF)) {
+                if (count >= capacity) {
+                    capacity *= 2;
+                    field_names = realloc(field_names, sizeof(char*) * capacity);
+                    field_values = realloc(field_values, sizeof(ASTNode*) * capacity);
+                }
+
+                /* Parse field name */
+                if (!match(p, TOKEN_IDENTIFIER)) {
+                    parser_error(p, current_token(p)->line, current_token(p)->column, "Error at line %d, column %d: Expected field name in union construction\n",
+                            current_token(p)->line, current_token(p)->column);
+                    break;
+                }
+                field_names[count] = strdup(current_token(p)->value);
+                advance(p);
+
+                /* Expect colon */
+                if (!expect(p, TOKEN_COLON, "Expected ':' after field name")) {
+                    break;
+                }
+
+                /* Parse field value */
+                field_values[count] = parse_expression(p);
+                count++;
+
+                /* Optional comma */
+                if (match(p, TOKEN_COMMA)) {
+                    advance(p);
+                }
+            }
+
+            if (!expect(p, TOKEN_RBRACE, "Expected '}' after union fields")) {
+                free(union_name);
+                free(variant_name);
+                for (int i = 0; i < count; i++) {
+                    free(field_names[i]);
+                    free_ast(field_values[i]);
+                }
+                free(field_names);
+                free(field_values);
+                return -1;  /* the identifier's name was released: the caller must drop the expression */
+            }
+
+            /* Create union construction node */
+            ASTNode *union_construct = create_node(AST_UNION_CONSTRUCT, line, column);
+            union_construct->as.union_construct.union_name = strdup(union_name);
+            union_construct->as.union_construct.variant_name = variant_name;
+            union_construct->as.union_construct.field_names = field_names;
+            union_construct->as.union_construct.field_values = field_values;
+            union_construct->as.union_construct.field_count = count;
+
+            /* Free the original identifier node */
+            free_ast((*operand));
+            (*operand) = union_construct;
+        } else {
+            /* Regular field access */
+            ASTNode *field_access = create_node(AST_FIELD_ACCESS, line, column);
+            field_access->as.field_access.object = (*operand);
+            field_access->as.field_access.field_name = field_or_variant;
+            (*operand) = field_access;
+        }
+    }
+    return 1;
+}
+
 /* Parse primary expression */
 static ASTNode *parse_primary(Stage1Parser *p) {
     Token *tok = current_token(p);
@@ -1242,6 +1385,7 @@ static ASTNode *parse_primary(Stage1Parser *p) {
             advance(p);  /* consume 'not' */
             ASTNode *operand = parse_primary(p);
             if (!operand) return NULL;
+            if (parse_postfix_chain(p, &operand) < 0) return NULL;  /* not p.ok  is  not (p.ok) */
             ASTNode *not_node = create_node(AST_PREFIX_OP, line, column);
             not_node->as.prefix_op.op = TOKEN_NOT;
             not_node->as.prefix_op.args = malloc(sizeof(ASTNode*));
@@ -1257,6 +1401,7 @@ static ASTNode *parse_primary(Stage1Parser *p) {
             advance(p);  /* consume '-' */
             ASTNode *operand = parse_primary(p);
             if (!operand) return NULL;
+            if (parse_postfix_chain(p, &operand) < 0) return NULL;  /* -p.x  is  -(p.x) */
             ASTNode *neg_node = create_node(AST_PREFIX_OP, line, column);
             neg_node->as.prefix_op.op = TOKEN_MINUS;
             neg_node->as.prefix_op.args = malloc(sizeof(ASTNode*));
@@ -2309,141 +2454,10 @@ static ASTNode *parse_expression(Stage1Parser *p) {
          * - UnionName.Variant { ... } -> union construction
          * - tuple.0, tuple.1 -> tuple index access
          */
-        while (match(p, TOKEN_DOT)) {
-            Token *dot_tok = current_token(p);
-            if (!dot_tok) {
-                parser_error(p, 0, 0, "Error: Stage1Parser reached invalid state (NULL token) in field access\n");
-                p->recursion_depth--;
-                return expr;
-            }
-            int line = dot_tok->line;
-            int column = dot_tok->column;
-            advance(p);  /* consume '.' */
-
-            /* Check if this is a tuple index: tuple.0, tuple.1, etc. */
-            if (match(p, TOKEN_NUMBER)) {
-                Token *num_tok = current_token(p);
-                int index = (int)atoll(num_tok->value);
-                advance(p);  /* consume number */
-
-                /* Create tuple index node */
-                ASTNode *index_node = create_node(AST_TUPLE_INDEX, line, column);
-                index_node->as.tuple_index.tuple = (*operand);
-                index_node->as.tuple_index.index = index;
-                (*operand) = index_node;
-                continue;
-            }
-
-            if (!match(p, TOKEN_IDENTIFIER)) {
-                Token *err_tok = current_token(p);
-                if (err_tok) {
-                    parser_error(p, err_tok->line, err_tok->column, "Error at line %d, column %d: Expected field name, variant name, or tuple index after '.'\n",
-                            err_tok->line, err_tok->column);
-                } else {
-                    parser_error(p, 0, 0, "Error: Stage1Parser reached invalid state (NULL token) after '.'\n");
-                }
-                p->recursion_depth--;
-                return expr;
-            }
-
-            Token *field_tok = current_token(p);
-            if (!field_tok || !field_tok->value) {
-                parser_error(p, field_tok ? field_tok->line : 0, field_tok ? field_tok->column : 0, "Error at line %d, column %d: Invalid field/variant token\n",
-                        field_tok ? field_tok->line : 0, field_tok ? field_tok->column : 0);
-                return expr;
-            }
-            char *field_or_variant = strdup(field_tok->value);
-            if (!field_or_variant) {
-                parser_error(p, 0, 0, "Error: Failed to allocate memory for field/variant name\n");
-                return expr;
-            }
-            advance(p);
-
-            /* Check if this is union construction: UnionName.Variant { ... } */
-            /* Union names should start with uppercase by convention, and we need both
-             * the union name and variant name to be identifiers (not field access) */
-            bool looks_like_union = ((*operand)->type == AST_IDENTIFIER &&
-                                     (*operand)->as.identifier &&
-                                     (*operand)->as.identifier[0] >= 'A' &&
-                                     (*operand)->as.identifier[0] <= 'Z' &&
-                                     field_or_variant &&
-                                     field_or_variant[0] >= 'A' &&
-                                     field_or_variant[0] <= 'Z');
-
-            if (match(p, TOKEN_LBRACE) && looks_like_union) {
-                /* This is union construction */
-                char *union_name = (*operand)->as.identifier;
-                char *variant_name = field_or_variant;
-
-                advance(p);  /* consume '{' */
-
-                /* Parse variant fields */
-                int capacity = 4;
-                int count = 0;
-                char **field_names = malloc(sizeof(char*) * capacity);
-                ASTNode **field_values = malloc(sizeof(ASTNode*) * capacity);
-
-                while (!match(p, TOKEN_RBRACE) && !match(p, TOKEN_EOF)) {
-                    if (count >= capacity) {
-                        capacity *= 2;
-                        field_names = realloc(field_names, sizeof(char*) * capacity);
-                        field_values = realloc(field_values, sizeof(ASTNode*) * capacity);
-                    }
-
-                    /* Parse field name */
-                    if (!match(p, TOKEN_IDENTIFIER)) {
-                        parser_error(p, current_token(p)->line, current_token(p)->column, "Error at line %d, column %d: Expected field name in union construction\n",
-                                current_token(p)->line, current_token(p)->column);
-                        break;
-                    }
-                    field_names[count] = strdup(current_token(p)->value);
-                    advance(p);
-
-                    /* Expect colon */
-                    if (!expect(p, TOKEN_COLON, "Expected ':' after field name")) {
-                        break;
-                    }
-
-                    /* Parse field value */
-                    field_values[count] = parse_expression(p);
-                    count++;
-
-                    /* Optional comma */
-                    if (match(p, TOKEN_COMMA)) {
-                        advance(p);
-                    }
-                }
-
-                if (!expect(p, TOKEN_RBRACE, "Expected '}' after union fields")) {
-                    free(union_name);
-                    free(variant_name);
-                    for (int i = 0; i < count; i++) {
-                        free(field_names[i]);
-                        free_ast(field_values[i]);
-                    }
-                    free(field_names);
-                    free(field_values);
-                    return NULL;
-                }
-
-                /* Create union construction node */
-                ASTNode *union_construct = create_node(AST_UNION_CONSTRUCT, line, column);
-                union_construct->as.union_construct.union_name = strdup(union_name);
-                union_construct->as.union_construct.variant_name = variant_name;
-                union_construct->as.union_construct.field_names = field_names;
-                union_construct->as.union_construct.field_values = field_values;
-                union_construct->as.union_construct.field_count = count;
-
-                /* Free the original identifier node */
-                free_ast((*operand));
-                (*operand) = union_construct;
-            } else {
-                /* Regular field access */
-                ASTNode *field_access = create_node(AST_FIELD_ACCESS, line, column);
-                field_access->as.field_access.object = (*operand);
-                field_access->as.field_access.field_name = field_or_variant;
-                (*operand) = field_access;
-            }
+        int postfix_ok = parse_postfix_chain(p, operand);
+        if (postfix_ok != 1) {
+            p->recursion_depth--;
+            return postfix_ok == 0 ? expr : NULL;
         }
 
         /* Check for infix binary operator: expr op primary */
